@@ -158,6 +158,22 @@ def main(run):
         mrows.append("[" + "; ".join("true" if (_E(e) in s) else "false" for _, e in named) + "]")
     t.append("Example corr_contains : map (fun s => map (contains s) tbl) tbl = [" + "; ".join(mrows)
              + "].\nProof. vm_compute. reflexivity. Qed.\n")
+    # membership in directional spaces
+    drows = []
+    for d in dirs:
+        ds = ss.DirectionalSobolevSpace(d)
+        row = []
+        for _, e in named:
+            txt, _raw = res_text(lambda: _E(e) in ds)
+            row.append(txt)
+        drows.append("[" + "; ".join(row) + "]")
+    dl = "[" + "; ".join("[" + "; ".join(coq_ord(o) for o in d) + "]" for d in dirs) + "]"
+    t.append(f"Definition dirs : list (list ord) := {dl}.\n")
+    t.append("Example corr_contains_dir : map (fun b => map (contains_dir S b) tbl) dirs = [" + "; ".join(drows)
+             + "].\nProof. vm_compute. reflexivity. Qed.\n")
+    t.append("Theorem C25_membership_dir_ok : membership_dir_ok S tbl dirs tbl = true. Proof. vm_compute. reflexivity. Qed.\n")
+    t.append("Theorem C25_membership_dir_refuted : exists b e, contains_dir S b e = RB false /\\ sub_spec S tbl (Named e) (Dir b) = true.\n"
+             "Proof. exists [Fin 1; Fin 0], n_H1. vm_compute. auto. Qed.\n")
     t.append("Print Assumptions C25_grid_ok_outside_known.\nPrint Assumptions C25_named_trans.\n")
     path = os.path.join(vlib.GEN, "C25_table.v")
     vlib.write_if_changed(path, "".join(t))
@@ -189,6 +205,8 @@ def main(run):
         if kid == "directional-lt-returns-exception-object":
             r = D((1, 1)) < H["HEin"]
             return isinstance(r, Exception)
+        if kid == "directional-membership-proper-superset":
+            return (_E(H["H1"]) in D((1, 0))) is False
         if kid == "directional-lt-named-any":
             return (D((2, 0)) < H["H1"]) is True
         return False
@@ -247,6 +265,26 @@ def python_search(grid, ops):
                 return {"a": x[1].name, "b": other, "operator": "lt", "returned": other in got,
                         "expected": other in math_supersets(x[1].name),
                         "note": "a < b must hold exactly when a is a proper subspace of b"}
+    class _El:
+        def __init__(self, s):
+            self.sobolev_space = s
+    items = {0: ss.L2, 1: ss.H1, 2: ss.H2, 3: ss.H3, math.inf: ss.HInf}
+    for x in grid:
+        if x[0] != "D":
+            continue
+        for y in grid:
+            if y[0] != "N":
+                continue
+            eqs = [items[o].name == y[1].name for o in x[1]._orders]
+            if any(eqs) and not all(eqs):
+                continue          # known-finding class C
+            try:
+                r = _El(y[1]) in x[1]
+            except Exception as e:  # noqa: BLE001
+                r = f"raised {type(e).__name__}"
+            if r is not sub(y, x):
+                return {"element_space": y[1].name, "space": str(x[1]), "operator": "in", "returned": repr(r),
+                        "expected": sub(y, x)}
     for x in grid:
         for y in grid:
             unk = (x[0] != y[0]) and ((x[1].name in UNKNOWN) or (y[1].name in UNKNOWN))
